@@ -24,16 +24,17 @@ import (
 // nfpm's writers (archive/tar, compress/gzip readers, xz and zstd decoders).
 
 type Entry struct {
-	Name  string
-	Type  byte
-	Mode  int64
-	Size  int64
-	MTime int64
-	Uname string
-	Gname string
-	Link  string
-	Data  []byte
-	Pax   map[string]string
+	Name   string
+	Type   byte
+	Mode   int64
+	Size   int64
+	MTime  int64
+	Uname  string
+	Gname  string
+	Link   string
+	Data   []byte
+	Pax    map[string]string
+	Format int // tar.Format of the header as written (GNU, USTAR, PAX)
 }
 
 func get64(b []byte, off int) int64 { return zz.Get64(b, off) }
@@ -57,6 +58,7 @@ func DecodeTar(b []byte) (entries []Entry, complete bool, ok bool) {
 		e.Size = get64(blk, offSize)
 		e.MTime = get64(blk, offMTime)
 		e.Type = blk[offType]
+		e.Format = int(blk[offFormat])
 		e.Link = string(blk[offLink : offLink+int(blk[offLinkLen])])
 		e.Uname = string(blk[offUname : offUname+int(blk[offUnLen])])
 		e.Gname = string(blk[offGname : offGname+int(blk[offGnLen])])
@@ -106,7 +108,7 @@ func nativeDecodeTar(b []byte) ([]Entry, bool, bool) {
 		if err != nil {
 			return out, false, false
 		}
-		e := Entry{Name: h.Name, Type: h.Typeflag, Mode: h.Mode, Size: h.Size, MTime: h.ModTime.Unix(), Uname: h.Uname, Gname: h.Gname, Link: h.Linkname, Data: data}
+		e := Entry{Name: h.Name, Type: h.Typeflag, Mode: h.Mode, Size: h.Size, MTime: h.ModTime.Unix(), Uname: h.Uname, Gname: h.Gname, Link: h.Linkname, Data: data, Format: int(h.Format)}
 		if len(h.PAXRecords) > 0 {
 			e.Pax = map[string]string{}
 			for k, v := range h.PAXRecords {
